@@ -1003,6 +1003,22 @@ def kmsg_record_complete(ctx, tag):
         whole = kl.text(a[2]) in ("%s.size()" % var, "%s.length()" % var, "%s.size()" % m.group(1), "%s.length()" % m.group(1))
         VERB = r"^(std::string\()?param:%s\)?$|^std::basic_string<char>\(param:%s\)$"
         verbatim = re.match(VERB % ("buf", "buf"), src) is not None
+
+        def appended_whole(fn, XX, name, param, at):
+            """The buffer starts empty and the caller's text is appended to it as a whole (append(text) / += text, one argument) on every
+            path to the nodes `at`."""
+            ini, vv = local_init(fn, name, must=False)
+            it = XX(ini) if vv is not None and ini is not None and ini >= 0 else ""
+            if vv is None or it not in ("", "std::string()", "std::basic_string<char>()", '""', 'std::string("")', "{}"):
+                return False
+            app = [j for j in fn.calls("append", "operator+=") if fn.text(fn.nodes[j].get("recv", -1)) == name and len(fn.nodes[j].get("args", [])) == 1
+                   and XX(fn.nodes[j]["args"][0]) == "param:" + param]
+            if not app or not at:
+                return False
+            fa = Flow(P, fn, events={j: [("set", "appended")] for j in app}, cg=ctx.cg)
+            return all(fa.must(x, "appended") for x in at)
+        if not verbatim and v is not None:
+            verbatim = appended_whole(kl, X, var, "buf", [i])
         shrinks = [kl.text(j)[:50] for j in kl.calls(*SHRINK) if kl.text(kl.nodes[j].get("recv", -1)) == var and kl.nodes[j].get("cname") != "operator="]
         if not verbatim and v is not None and init is not None and init >= 0:
             # the record may be assembled by a helper: message = helper(buf, prefix) - follow it one level
@@ -1025,7 +1041,7 @@ def kmsg_record_complete(ctx, tag):
                     if rv and len(set(rv)) == 1 and re.match(r"^\w+$", rv[0]):
                         hi, hv = local_init(h, rv[0], must=False)
                         hsrc = Xh(hi) if hv is not None and hi is not None and hi >= 0 else "?"
-                        verbatim = re.match(VERB % (pn, pn), hsrc) is not None
+                        verbatim = re.match(VERB % (pn, pn), hsrc) is not None or appended_whole(h, Xh, rv[0], pn, [r for r in returns(h) if "val" in h.nodes[r]])
                         shrinks += [h.text(j)[:50] for j in h.calls(*SHRINK) if h.text(h.nodes[j].get("recv", -1)) == rv[0] and h.nodes[j].get("cname") != "operator="]
                         src = "%s(..) -> %s" % (h.name, hsrc)
         ctx.check(verbatim and whole and not shrinks, tag + ":kmsg-record-complete", "provenance + who-may-write (extend only)", kl.loc(i),
